@@ -1,6 +1,7 @@
 package c18
 
 import (
+	"context"
 	"flag"
 	"fmt"
 	"math"
@@ -8,11 +9,13 @@ import (
 	"runtime"
 	"runtime/metrics"
 	"sync"
+	"sync/atomic"
 	"testing"
 	"time"
 
 	"pgregory.net/rapid"
 
+	"go.opentelemetry.io/collector/component"
 	"go.opentelemetry.io/collector/internal/memorylimiter"
 	"go.opentelemetry.io/collector/verifharness/vt"
 )
@@ -33,6 +36,20 @@ func TestMain(m *testing.M) {
 		os.Exit(2)
 	}
 	vt.Main(m)
+}
+
+// startComp starts a component the way the component.Component contract allows a host to do it:
+// with cancelCtx the context handed to Start is cancelled as soon as Start has returned ("that
+// context will be cancelled soon" - e.g. a host bounding start-up with context.WithTimeout +
+// defer cancel()); nothing long-running, in particular not the checker, may depend on it.
+func startComp(c component.Component, host component.Host, cancelCtx bool) error {
+	if !cancelCtx {
+		return c.Start(context.Background(), host)
+	}
+	ctx, cancel := context.WithCancel(context.Background())
+	err := c.Start(ctx, host)
+	cancel()
+	return err
 }
 
 // shrinkBudget bounds the wall-clock time rapid spends shrinking a failing case.
@@ -398,7 +415,21 @@ func (s *source) awaitCheck(p int, idleTicks int) bool { return s.awaitCheckWhy(
 
 const maxUnparsed = 400
 
+// stallSeen: a stopped checker has already been established in this process with the
+// full stallTicks patience (the verdict exists).  rapid then re-runs hundreds of
+// variants of the failing script to minimise it - its per-block minimisation is not
+// bounded by -rapid.shrinktime - so from here on a much shorter patience is used;
+// it can only influence which script is kept as the minimal one, and the driver
+// re-confirms that script in a fresh process (full patience again).
+var stallSeen atomic.Bool
+
+const stallTicksWhileShrinking = 4
+
 func (s *source) awaitCheckWhy(p int, idleTicks int) (why string) {
+	full := idleTicks
+	if stallSeen.Load() && idleTicks > stallTicksWhileShrinking {
+		idleTicks = stallTicksWhileShrinking
+	}
 	tk := time.NewTicker(50 * time.Millisecond)
 	defer tk.Stop()
 	deadline := time.Now().Add(60 * time.Second)
@@ -432,6 +463,9 @@ func (s *source) awaitCheckWhy(p int, idleTicks int) (why string) {
 		case <-tk.C:
 			idle++
 			if idle >= idleTicks {
+				if idle >= full && full >= stallTicks {
+					stallSeen.Store(true)
+				}
 				return fmt.Sprintf("no memory reading at all during %d consecutive 50 ms harness ticks although check_interval is 1 ms", idle)
 			}
 			if time.Now().After(deadline) {
